@@ -38,6 +38,29 @@ def two_failing_names():
     return A.file([A.stanza("(identifier) @id ", defs), A.stanza("(identifier) @id ", defs)])
 
 
+def order_sensitive_files():
+    """programs whose result would change with the iteration order of an unordered container: set comprehensions whose elements
+    allocate graph nodes or fail (the element order is the order of the source LIST), several conflicting attributes"""
+    v, c, i, s = A.var, A.cap, A.integer, A.string
+    xs = "(module (_)* @xs) @m "
+    xs_ = "(module (_)* @xs) @_m "
+    files = [
+        A.file([A.stanza(xs, [A.node(A.svar(c("m"), "n")), A.attrn(A.svar(c("m"), "n"), A.attr("s", A.setc(A.lst(A.call("node"), A.call("source-text", v("x"))), "x", c("xs"))))])]),
+        A.file([A.stanza(xs_, [A.node(v("n")), A.attrn(v("n"), A.attr("s", A.setc(A.call("plus", i(1), A.call("source-text", v("x"))), "x", c("xs"))))])]),
+        A.file([A.stanza(xs_, [A.let(v("l"), A.setc(A.lst(A.call("node"), A.call("node-type", v("x")), A.call("start-row", v("x"))), "x", c("xs"))), A.node(v("n")),
+                              A.forin("e", A.listc(v("y"), "y", c("xs")), [A.node(v("k")), A.attrn(v("k"), A.attr("of", A.call("source-text", v("e"))))]),
+                              A.attrn(v("n"), A.attr("l", v("l")))])]),
+        A.file([A.stanza("(identifier) @id ", [A.let(A.svar(c("id"), "d"), A.call("node"))]),
+                A.stanza("(module (expression_statement (_) @es)* ) @_m ", [A.node(v("n")), A.attrn(v("n"), A.attr("s", A.setc(A.call("not", A.call("source-text", v("x"))), "x", c("es"))))])]),
+    ]
+    return files
+
+
+def debug_conflict_file():
+    # with debug attributes on, the statement conflicts with an attribute that no statement of this run has set
+    return A.file([A.stanza("(identifier) @_id ", [A.node(A.var("n")), A.attrn(A.var("n"), A.attr("first", A.integer(1))), A.attrn(A.var("n"), A.attr("dbg_var", A.string("clash")))])])
+
+
 def run(tier):
     V = C.Verdicts(PROP, tier)
     d = C.workdir("c12")
@@ -53,6 +76,13 @@ def run(tier):
     extra = []
     for s in (2, 8, 14):
         extra += A.both_modes("c12h-%d" % s, two_failing_names(), s)
+    for j, f in enumerate(order_sensitive_files()):
+        for sidx in (2, 5, 7, 17):
+            extra += A.both_modes("c12o-%d-%d" % (j, sidx), f, sidx)
+    for sidx in (2, 7):
+        for cse in A.both_modes("c12d-%d" % sidx, debug_conflict_file(), sidx, dbg=A.DBG_ON):
+            cse["session_dbg"] = True
+            extra.append(cse)
     gen = C.read_ndjson(raw)
     run.add_cases("c12_base", gen + extra)
     run.classify_all(panic_only=True)
@@ -61,7 +91,7 @@ def run(tier):
         if "text" not in c or c.get("outcome", {}).get("status") in (None, "load_err"):
             continue
         trees = [c["src"]] + [r.randint(1, nsrc) for _ in range(r.randint(1, 2))]
-        sessions.append({"id": c["id"], "text": c["text"], "mode": c["mode"], "srcs": trees, "globals": c.get("globals", {})})
+        sessions.append({"id": c["id"], "text": c["text"], "mode": c["mode"], "srcs": trees, "globals": c.get("globals", {}), "dbg": bool(c.get("session_dbg"))})
     for i, t in enumerate(faulty_texts(r)):
         sessions.append({"id": "c12f-%d" % i, "text": t, "mode": "strict", "srcs": [2], "globals": {}})
     sin = os.path.join(d, "sessions.ndjson")
